@@ -496,6 +496,10 @@ func init() {
 		return fr.i.fileWrite(handleOf(a[0]), a[1])
 	})
 	both("Close", func(fr *frame, a []value) value {
+		if p, isP := a[0].(*value); isP && p == nil {
+			// (*os.File)(nil).Close() returns os.ErrInvalid
+			return fr.i.globalValue("io/fs", "ErrInvalid")
+		}
 		h := handleOf(a[0])
 		if h.closed {
 			return fr.i.pathError("close", h.name, "ErrClosed")
